@@ -410,7 +410,7 @@ class C03(Check):
         return base_result(sim, uniq if st["reached"] or uniq else [],
                            summary={"reached": st["reached"], "state_before": st.get("state_before"),
                                     "state_after": st.get("state_after"), "decoder": st["decoder"]},
-                           extra={"faults": faults, "sched_sig": sig})
+                           extra={"abstract_states": sorted(w.abstract_states), "faults": faults, "sched_sig": sig})
 
 
 def _locks(w):
